@@ -121,6 +121,29 @@ def canon_correspondence(ctx, st, quick):
     return bad, jobs, src
 
 
+def _partial_multiline(inds, swap):
+    """does some swap cross only a strict subset of the lines that join one pair of tensors (the documented trigger of the known finding)?"""
+    where = {}
+    for k, ii in enumerate(inds):
+        for i in ii:
+            if i > 0:
+                where.setdefault(i, []).append(k)
+    groups = {}
+    for i, ks in where.items():
+        if len(set(ks)) == 2:
+            groups.setdefault(tuple(sorted(set(ks))), set()).add(i)
+    for g in groups.values():
+        if len(g) >= 2:
+            partners = {}
+            for x, y in swap:
+                for a_, b_ in ((x, y), (y, x)):
+                    if a_ in g:
+                        partners.setdefault(b_, set()).add(a_)
+            if any(0 < len(v) < len(g) for v in partners.values()):
+                return True
+    return False
+
+
 def ncon_orders(ctx, quick):
     """every contraction order of small fermionic networks with swap gates gives one and the same tensor"""
     import yastn, tgen
@@ -135,6 +158,10 @@ def ncon_orders(ctx, quick):
         ([[1, 2, 1, -0, -1], [2, -2, -3]], [(-0, -3), (-1, -2), (2, -0), (-0, -1), (2, -3)]),
         ([[1, -0, 1, 2, -1], [2, 3, -2], [3, -3]], [(-1, -2), (-0, -3), (2, -1), (3, -0), (-1, -3)]),
         ([[-0, 1, 1, -1, 2], [2, -2]], [(-1, -2), (-0, -2), (2, -1), (-0, -1)]),
+        # a swap that crosses only one of two lines contracted together; swaps with a traced line
+        ([[-0, 1, 2], [2, 1], [-1, -2]], [(2, -2), (1, -1), (1, -2), (-0, -1)]),
+        ([[2, 1], [3, -0, 4], [1, -1, 2], [3, -2, 4]], [(-2, 1), (3, -1), (-0, -1), (4, 2)]),
+        ([[1, 1, -0], [-1, -2]], [(1, -1), (1, -2), (-0, -1)]),
     ]
     nrep = 700 if quick else 8000
     for rep in range(nrep):
@@ -179,10 +206,12 @@ def ncon_orders(ctx, quick):
             continue
         swap = rng.sample(cand, rng.randint(1, min(3, len(cand))))
         results = {}
+        first_ok = None
         for order in itertools.permutations(labels):
             try:
                 r = yastn.ncon(ts, inds, order=order, swap=swap)
                 results[order] = ('ok', tgen.obs(r))
+                first_ok = first_ok if first_ok is not None else r
             except yastn.YastnError as e:
                 results[order] = ('YastnError', str(e)[:80])
             except AssertionError as e:
@@ -195,8 +224,37 @@ def ncon_orders(ctx, quick):
                 ctx.count('ncon_order_rejected:' + v[0])
         desc = dict(kind='ncon-orders', sym=sym, fermionic=repr(ferm), inds=inds, swap=swap, parities=[t.n for t in ts], rep=rep, seed=ctx.seed)
         ctx.case(desc, nontrivial=len(oks) > 1)
+        traced = {i for ii in inds for i in ii if i > 0 and ii.count(i) == 2}
+        on_traced = any(x in traced or y in traced for x, y in swap)
+        if any(v[0] == 'AssertionError' for v in results.values()):
+            ctx.violation('ncon with swaps %r on network %r (sym %s, fermionic %r, tensor charges %r) fails an internal sanity check (AssertionError: %s) for %d of %d contraction orders' % (
+                swap, inds, sym, ferm, [t.n for t in ts], next(v[1] for v in results.values() if v[0] == 'AssertionError'), sum(1 for v in results.values() if v[0] == 'AssertionError'), len(results)),
+                dict(desc, what='assertion'), family='ncon-bad-swap-assertion' if _partial_multiline(inds, swap) else None)
+        # ground truth: outer product of all tensors, swap gates between one end of each of the two lines, then all traces
+        if first_ok is not None:
+            try:
+                big = ts[0]
+                for t in ts[1:]:
+                    big = yastn.tensordot(big, t, axes=((), ()))
+                flat = [i for ii in inds for i in ii]
+                for x, y in swap:
+                    big = big.swap_gate(axes=(flat.index(x), flat.index(y)))
+                pairs_ = [(flat.index(i), len(flat) - 1 - flat[::-1].index(i)) for i in sorted({i for i in flat if i > 0})]
+                if pairs_:
+                    big = big.trace(axes=(tuple(p for p, _ in pairs_), tuple(q for _, q in pairs_)))
+                rest = [i for k, i in enumerate(flat) if i <= 0]
+                ref = big.transpose(tuple(sorted(range(len(rest)), key=lambda k: -rest[k]))) if len(rest) > 1 else big
+                lgu = {k: yastn.legs_union(ref.get_legs(k), first_ok.get_legs(k)) for k in range(ref.ndim)}
+                same = tuple(ref.n) == tuple(first_ok.n) and np.array_equal(ref.to_numpy(legs=lgu), first_ok.to_numpy(legs=lgu))
+                ctx.count('ncon_vs_explicit')
+                if not same:
+                    ctx.violation('ncon with swaps %r on network %r (sym %s, fermionic %r, tensor charges %r) differs from the explicit evaluation (outer product, swap_gate, trace)%s' % (
+                        swap, inds, sym, ferm, [t.n for t in ts], ' -- a swap involves a traced line' if on_traced else ''), dict(desc, what='explicit'),
+                        family='ncon-traced-line-swap' if on_traced else None)
+            except yastn.YastnError as e:
+                ctx.count('ncon_vs_explicit:reference-failed')
         # the same network with every tensor presented in another leg order (labels moved along): one and the same tensor
-        if oks:
+        if oks and not on_traced:
             o0 = next(iter(oks))
             for variant in range(2):
                 perms = []
